@@ -130,6 +130,14 @@ def time_courses(draw, mode=None, tier="quick"):
             drift = [drift[a] + v[a] for a in range(dim)]
         frames.append(fr)
         ids.append(fid)
+    far = None
+    if not has_grid and draw(st.integers(0, 4)) == 2:
+        # the whole history far away from the origin: coordinates of 1e6 ... 1e8 box sizes with droplet sizes and separations of
+        # order one (differences of such coordinates are still exact to ~1e-16 x |coordinate|, far below all margins used here)
+        far = [float(draw(st.sampled_from([-1.0, 1.0])) * 10.0 ** draw(st.integers(6, 8)) * s * m * draw(st.sampled_from([1.0, 0.37, 2.9]))) for _ in range(dim)]
+        for fr in frames:
+            for d in fr:
+                d["position"] = [float(x + f) for x, f in zip(d["position"], far)]
     method = draw(st.sampled_from(["overlap", "distance"]))
     md = None
     if method == "distance":
@@ -155,6 +163,8 @@ def time_courses(draw, mode=None, tier="quick"):
     }
     if mode == "motion":
         spec["ids"] = ids
+    if far is not None:
+        spec["far"] = far
     return spec
 
 
